@@ -223,6 +223,12 @@ def check(ctx: Ctx) -> None:
                         injected.add(k.value)
             if isinstance(n, ast.Assign) and isinstance(n.targets[0], ast.Subscript) and isinstance(n.targets[0].slice, ast.Constant):
                 pass  # conditional injections (execmodel) are not relied upon
+        # ... or built up by stores before the exec (value terms)
+        from ..terms import dict_entries as _dent, evaluator as _evinj
+        for (_pp, st_i) in _evinj(repo, fe).run(limit=4000):
+            for e_i in st_i.events:
+                if e_i.kind == "call" and e_i.callee in ("exec", "exec_") and len(e_i.args) >= 2:
+                    injected |= {k_ for k_ in _dent(st_i, e_i.args[1], e_i) if isinstance(k_, str)}
         nsites = 0
         for fname, extra in (("bootstrap_import", set()), ("bootstrap_exec", prelude), ("bootstrap_socket", prelude | {"socket", "SocketIO"} | (injected & {"clientsock", "address"}))):
             f = repo.func(f"gateway_bootstrap.{fname}")
